@@ -92,16 +92,17 @@ type KnownHit struct {
 }
 
 type Runner struct {
-	sibCounter int
-	res        *Result
-	seen       map[[16]byte]struct{}
-	rng        *rand.Rand
-	oracle     *Oracle
-	batch      []*Case
-	mu         sync.Mutex
-	maxFail    int
-	tier       string
-	thorough   bool
+	sibCounter  int
+	textCounter int
+	res         *Result
+	seen        map[[16]byte]struct{}
+	rng         *rand.Rand
+	oracle      *Oracle
+	batch       []*Case
+	mu          sync.Mutex
+	maxFail     int
+	tier        string
+	thorough    bool
 }
 
 func NewRunner(prop, tier string, seed int64, oraclePath string) *Runner {
